@@ -80,7 +80,7 @@ def main(argv=None):
             cov['translated_functions'] = sum(1 for r in report.values() if r['ok'])
             untrans = {k: v['error'] for k, v in report.items() if not v['ok']}
             cov['untranslatable'] = untrans
-            unexpected = {k: v for k, v in untrans.items() if k not in EXPECTED_UNTRANSLATABLE and k not in spec.get('expected_untranslatable', ()) and report[k]['group'] in spec.get('groups', ())}
+            unexpected = {k: v for k, v in untrans.items() if k not in EXPECTED_UNTRANSLATABLE and k not in spec.get('expected_untranslatable', ()) and (report[k]['group'] in spec.get('groups', ()) or (spec.get('flag_inconsistent') and str(v).startswith('inconsistent branching')))}
             if unexpected:
                 broken.append(dict(kind='translator', what=f"translator cannot follow the code: {unexpected}"))
             for aux in spec.get('aux_translators', ()):
